@@ -4,8 +4,8 @@ from __future__ import annotations
 import ast
 
 from ..consteval import ConstEval, NotConst
-from ..core import AnalysisError, own_nodes, short, unparse
-from ..rules import dsp, live, shape
+from ..core import parent, AnalysisError, own_nodes, short, unparse
+from ..rules import match, dsp, live, shape
 from . import common
 
 EXPLANATION = (
@@ -175,4 +175,17 @@ def run(ctx):
   shape.check_inorder_accumulation(ctx, gp, "paragraphs", gp.params[1])
   pr = ctx.ix.func("ttconv.filters.isd.merge_paragraphs:ParagraphsMergingISDFilter.process")
   shape.check_inorder_accumulation(ctx, pr, "paragraphs", "original_divs")
+  gp_ = ctx.ix.func("ttconv.filters.isd.merge_paragraphs:ParagraphsMergingISDFilter._get_paragraphs")
+  rec_ = [c for c in own_nodes(gp_.node) if isinstance(c, ast.Call) and unparse(c.func) in (f"self.{gp_.name}", f"cls.{gp_.name}", gp_.name)]
+  ctx.check(bool(rec_), "ORD-docorder", f"{gp_.qualname}|paragraphs are collected at every depth", ctx.where(gp_.module, gp_.node), "the collector calls itself on nested divs",
+            "_get_paragraphs no longer recurses into nested divs: paragraphs below the second div level are dropped from the merged output")
+  mr_ = ctx.ix.func("ttconv.filters.isd.merge_regions:RegionsMergingISDFilter.process")
+  ctx.unit(mr_.module)
+  moving = [lp for lp in own_nodes(mr_.node) if isinstance(lp, ast.For) and isinstance(parent(lp), ast.FunctionDef) and any(isinstance(c, ast.Call) and isinstance(c.func, ast.Attribute) and c.func.attr == "push_child" for c in own_nodes(lp))]
+  if len(moving) != 1:
+    raise AnalysisError(f"{mr_.qualname}: the loop that moves the content of every region was not found")
+  srcs_ = match.local_defs(mr_.node).get(unparse(moving[0].iter), [])
+  natural = isinstance(moving[0].iter, ast.Name) and len(srcs_) == 1 and unparse(srcs_[0]) in ("list(isd.iter_regions())", "tuple(isd.iter_regions())", "isd.iter_regions()")
+  ctx.check(natural or unparse(moving[0].iter) in ("isd.iter_regions()", "list(isd.iter_regions())"), "ORD-docorder", f"{mr_.qualname}|regions are merged in document order", ctx.where(mr_.module, moving[0]),
+            f"iterates `{unparse(moving[0].iter)}` = the regions in their order in the ISD", f"the content of the regions is merged in the order of `{short(moving[0].iter, 60)}`, not in the order of the regions in the document: simultaneous text of different regions is swapped")
   common.check_history_independence(ctx, common.WRITERS + common.ISD_FILTERS + ["ttconv.isd"])
